@@ -3,4 +3,8 @@ package main
 func registerStreams(m map[string]Stream) {
 	m["ctrl-encode"] = ctrlEncodeStream{}
 	m["behera-ctor"] = beheraStream{}
+	m["convert"] = convertStream{}
+	m["sid"] = sidStream{}
+	m["newentry"] = newEntryStream{}
+	m["resp"] = respStream{}
 }
